@@ -646,12 +646,12 @@ public:
 					{
 						rapidjson::PrettyWriter<StringBuffer, TEncoding, rapidjson::UTF8<>> writer(buffer);
 						writer.SetIndent(options.formatOptions.paddingChar, options.formatOptions.paddingCharNum);
-						mRootJson.Accept(writer);
+						CheckWriteResult(mRootJson.Accept(writer));
 					}
 					else
 					{
 						rapidjson::Writer<StringBuffer, TEncoding, rapidjson::UTF8<>> writer(buffer);
-						mRootJson.Accept(writer);
+						CheckWriteResult(mRootJson.Accept(writer));
 					}
 					*arg = buffer.GetString();
 				}
@@ -664,12 +664,12 @@ public:
 					{
 						rapidjson::PrettyWriter<AutoOutputStream, TEncoding, rapidjson::AutoUTF<uint32_t>> writer(eos);
 						writer.SetIndent(options.formatOptions.paddingChar, options.formatOptions.paddingCharNum);
-						mRootJson.Accept(writer);
+						CheckWriteResult(mRootJson.Accept(writer));
 					}
 					else
 					{
 						rapidjson::Writer<AutoOutputStream, TEncoding, rapidjson::AutoUTF<uint32_t>> writer(eos);
-						mRootJson.Accept(writer);
+						CheckWriteResult(mRootJson.Accept(writer));
 					}
 				}
 			}, mOutput);
@@ -678,6 +678,16 @@ public:
 	}
 
 private:
+	static void CheckWriteResult(bool isSuccess)
+	{
+		// RapidJSON stops writing when meets value that cannot be represented in JSON
+		if (!isSuccess)
+		{
+			throw SerializationException(SerializationErrorCode::OutOfRange,
+				"Unable to write JSON, value cannot be represented (NaN, Infinity or invalid UTF sequence)");
+		}
+	}
+
 	static rapidjson::UTFType ToRapidUtfType(const Convert::Utf::UtfType utfType)
 	{
 		switch (utfType)
